@@ -34,7 +34,7 @@ BDtDates == {<<2020, 2, 29>>, <<2019, 12, 31>>}
 DateForms == {MkDate(p, c[1], c[2], c[3]) : p \in 1..3, c \in BDates}
 DtForms   == {MkDT(w[1], w[2][1], w[2][2], w[2][3], w[3], w[4]) :
                 w \in {v \in (1..7) \X BDtDates \X {T0, TEnd, TMid} \X Offsets :
-                          /\ (v[4] # NoOff => v[3] = TMid)
+                          /\ (v[4] # NoOff => v[3] = TMid /\ v[2] = <<2020, 2, 29>>)
                           /\ (v[3] = T0 => v[2] = <<2020, 2, 29>>) /\ (v[3] = TEnd => v[2] = <<2019, 12, 31>>)}}
 TimeForms == {MkTime(p, ms) : p \in 4..7, ms \in {T0, TEnd, TMid, T8}}
 BForms == DateForms \cup DtForms \cup TimeForms
@@ -50,7 +50,7 @@ CrossCases(z) == {Ar(x, op, Qty(ua[2], ua[1])) : x \in BForms, op \in Ops, ua \i
 
 (* calendar sweep: Date at day precision over the marked days of the cycle and the edges *)
 DateUnitAmounts ==
-  {<<u, a>> : u \in {v \in Kw1Units : RankOf(v) \in DateRanks}, a \in {0, 1000, 11000, 12000, 13000, 365000, 366000, 1000000, 1500, -1000, -13000}}
+  {<<u, a>> : u \in {v \in Kw1Units : RankOf(v) \in DateRanks}, a \in {1000, 12000, 13000, 365000, 366000, 1500, -1000, -13000}}
   \cup {<<u, a>> : u \in {v \in KwNUnits : RankOf(v) \in DateRanks}, a \in {1000, -1000}}
 SweepDays == CycleDays \cup EdgeDays
 DateSweep(z) == {Ar(MkDate(3, c[1], c[2], c[3]), op, Qty(ua[2], ua[1])) : c \in SweepDays, op \in Ops, ua \in DateUnitAmounts}
@@ -58,7 +58,15 @@ MonthSweep(z) == {Ar(MkDate(2, ym[1], ym[2], 1), op, Qty(a, u)) : ym \in CycleMo
 DtSweep(z) == {Ar(MkDT(6, c[1], c[2], c[3], TMid, [tz |-> TRUE, off |-> 330]), op, Qty(a, u)) :
               c \in SweepDays, op \in Ops, u \in {"year", "months", "day"}, a \in {1000, 12000, 13000, 365000, -1000}}
 
-InvCases(z) == {Inv(x, op, Qty(a, u)) : x \in BForms, op \in Ops, u \in Kw1Units, a \in {1000, 24000, 25000, 1500, -1000}}
+(* the conversion boundaries that need amounts beyond 1000: 30 days and 365 days in hours and minutes *)
+BoundaryUnitAmounts ==
+  {<<"hours", 719000>>, <<"hours", 720000>>, <<"hour", 8759000>>, <<"hours", 8760000>>, <<"hours", 8784000>>,
+   <<"minutes", 43199000>>, <<"minutes", 43200000>>, <<"minute", 525599000>>, <<"minutes", 525600000>>,
+   <<"days", 29000>>, <<"days", 30000>>, <<"days", 364000>>, <<"weeks", 52000>>, <<"weeks", 53000>>,
+   <<"seconds", 86399000>>, <<"seconds", 86400000>>, <<"milliseconds", 1000000>>, <<"millisecond", 999000>>}
+BoundaryCases(z) == {Ar(x, op, Qty(ua[2], ua[1])) : x \in {f \in DateForms \cup DtForms : f.p <= 3 \/ f.p = 6}, op \in Ops, ua \in BoundaryUnitAmounts}
+
+InvCases(z) == {Inv(x, op, Qty(a, u)) : x \in BForms, op \in Ops, u \in Kw1Units, a \in {1000, 25000, 1500, -1000}}
 CmpPairs == {<<0, 1000>>, <<23000, 24000>>, <<59000, 60000>>, <<365000, 366000>>, <<-1000, 0>>, <<-13000, -1000>>}
 CmpOpPairs == {<<"+", pr>> : pr \in CmpPairs} \cup {<<"-", pr>> : pr \in {<<0, 1000>>, <<24000, 25000>>}}
 CmpCases(z) == {Cmp(x, op[1], Qty(op[2][1], u), Qty(op[2][2], u)) : x \in BForms, u \in Kw1Units, op \in CmpOpPairs}
@@ -90,7 +98,7 @@ TimeWindow(z) == {Ar(MkTime(p, ms), op, Qty(a, u)) : p \in 4..7, ms \in DayTimes
 InCases(c) ==
   \/ Tier = "model" /\ c \in ModelCases(0)
   \/ Tier \in {"quick", "thorough"} /\ (\/ c \in CrossCases(0) \/ c \in DateSweep(0) \/ c \in MonthSweep(0) \/ c \in DtSweep(0)
-                                        \/ c \in InvCases(0) \/ c \in CmpCases(0) \/ c \in QQCases(0))
+                                        \/ c \in InvCases(0) \/ c \in CmpCases(0) \/ c \in QQCases(0) \/ c \in BoundaryCases(0))
   \/ Tier = "thorough" /\ (c \in FullDateSweep(0) \/ c \in WindowCases(0) \/ c \in TimeWindow(0))
 
 (******************************* the machine *******************************)
